@@ -154,6 +154,7 @@ static void build_state_alphabet(void) {
 /* interface 0 = responder A, interface 1 = responder B, one core instance serves both (as in the daemons) */
 static struct m10 { uint8_t qn; uint8_t q[3][32]; uint8_t delivered; } M10;   /* delivered: bit (srcidx*2+kind) */
 enum { X_DISC_A, X_DISC_A_BR, X_DISC_B, X_DELIVER, X_HELLO_B, X_PROBE_PEER_B, X_QUERY_B, X_QUERY_B_BR, X_RESET_B, X_OTHER_EMITTER_B, X_EMIT0 };
+static int QCAP = 3;                    /* bound on the in-flight queue (quick tier: 2) */
 static int NEMIT; static struct { uint8_t n; uint8_t d[2]; } EM[512];     /* descriptor code: kind | pause<<1 | dstB<<2 | srcA<<3 */
 static const uint8_t *addrA(void) { return W.iface[0].mac; }
 static const uint8_t *addrB(void) { return W.iface[1].mac; }
@@ -178,7 +179,7 @@ static void x_name(int ev, char *buf, size_t cap) {
 }
 static int x_enabled(int ev) {
     if (ev == X_DELIVER) return M10.qn > 0;
-    if (ev >= X_EMIT0) return M10.qn + towardsB(ev) <= 3;
+    if (ev >= X_EMIT0) return M10.qn + towardsB(ev) <= QCAP;
     return 1;
 }
 static void deliver_to(int iface, const uint8_t *f, size_t len) { vf_iface *fi = &W.iface[iface]; memset(fi->recv, 0, fi->recv_prev_len); drv_linux_deliver(iface, f, len); }
@@ -231,7 +232,7 @@ static void x_apply(int ev) {
                 const uint8_t *b = tr_bytes(t);
                 if (b[17] != 0x03 && b[17] != 0x04) continue;
                 if (memcmp(b, addrB(), 6) != 0) continue;
-                if (M10.qn < 3) memcpy(M10.q[M10.qn++], b, 32);
+                if (M10.qn < QCAP) memcpy(M10.q[M10.qn++], b, 32);
             }
             break; }
     }
@@ -261,12 +262,14 @@ int main(int argc, char **argv) {
         if (A.a == 2) { uint8_t far[6] = {0xf2, 0x99, 0x00, 0x01, 0x7f, 0x80}; memcpy(W.iface[1].mac, far, 6); }
         NEMIT = 0;
         for (int a = 0; a < 16; a++) { EM[NEMIT].n = 1; EM[NEMIT].d[0] = (uint8_t)a; NEMIT++; }
-        for (int a = 0; a < 16; a++) for (int b = 0; b < 16; b++) { EM[NEMIT].n = 2; EM[NEMIT].d[0] = (uint8_t)a; EM[NEMIT].d[1] = (uint8_t)b; NEMIT++; }
+        /* two-descriptor lists: pauses do not influence what B records; only the first descriptor varies its pause */
+        for (int a = 0; a < 16; a++) for (int b = 0; b < 16; b++) { if (b & 2) continue; EM[NEMIT].n = 2; EM[NEMIT].d[0] = (uint8_t)a; EM[NEMIT].d[1] = (uint8_t)b; NEMIT++; }
+        QCAP = vf_thorough() ? 3 : 2;
         e1_cfg cfg = { .nev = X_EMIT0 + NEMIT, .ev_name = x_name, .apply = x_apply, .enabled = x_enabled, .root_setup = x_root, .model = &M10, .model_size = sizeof M10,
                        .deadline_s = A.deadline, .prune_on_violation = 1 };
         if (A.replay) { A.verbose = 1; return e1_replay_file(&cfg, A.replay); }
         e1_run(&cfg, &st);
-        vf_extra("alphabet", "%d events (%d Emit descriptor lists); in-flight queue bounded at 3 frames", X_EMIT0 + NEMIT, NEMIT);
+        vf_extra("alphabet", "%d events (%d Emit descriptor lists); in-flight queue bounded at %d frames", X_EMIT0 + NEMIT, NEMIT, QCAP);
     }
     R.states = st.states; R.transitions = st.transitions; R.evaluations = st.transitions; R.max_depth = st.max_depth;
     R.fixpoint = st.fixpoint; R.exhaustive = st.fixpoint; R.cap_hit = st.cap;
